@@ -86,8 +86,12 @@ struct G
   std::string centre(const IV & kk) const
   {
     CI c; for (size_t a = 0; a < DIM; ++a) {c[a] = (size_t)kk[a];}
-    P x = map->computeCellCenterPosition(c);
+    // two centres held at the same time through whatever the accessor returns (no copies): each keeps its own value
+    CI other; for (size_t a = 0; a < DIM; ++a) {other[a] = (size_t)kk[a] > 0 ? 0 : map->getNumberOfCellsAlongAxes()[a] - 1;}
+    const auto & x = map->computeCellCenterPosition(c);
+    const auto & xo = map->computeCellCenterPosition(other);
     IV out; bool exact = true;
+    for (size_t a = 0; a < DIM; ++a) {if (xo[a] != map->getCellCentersPositionAlong(a)[other[a]]) {exact = false;}}
     for (size_t a = 0; a < DIM; ++a) {bool ok = true; out.push_back(units((double)x[a], ok)); exact = exact && ok;}
     IV tab; for (size_t a = 0; a < DIM; ++a) {bool ok = true; tab.push_back(units((double)map->getCellCentersPositionAlong(a)[(size_t)kk[a]], ok)); exact = exact && ok;}
     return vh::Ev("centre").vec("kk", kk).vec("c", out).vec("tab", tab).b("exact", exact).done();
